@@ -25,6 +25,20 @@ claim('C18',
       'TLC, the JSON trace recorder (attribute wrappers on two private methods; result clauses are still checked if '
       'they disappear), a 5 s step budget standing in for termination.')
 
+claim('C16',
+      'TLC model checking of OpGraph.tla (all rewrite sequences on all tree-expanded term graphs of a bounded universe) '
+      '+ replay of TLC-simulated behaviours into real OpGraph objects + TLC trace validation (TraceOpGraph.tla) of '
+      'recorded rewrite histories with exact free-algebra denotation',
+      'merge_edges / simplify / rename / flip / add are actions of OpGraph.tla with the guards of the code; TLC checks '
+      'for every reachable state that the free-algebra polynomial follows the contract of each rewrite (unchanged, '
+      'reversed, sum), that the graph is consistent, and that every merge removes an edge and widens no layer. The '
+      'real code is bound both ways: behaviours simulated by TLC are replayed on real graphs and compared state by '
+      'state, and recorded histories (every merge inside simplify/add, colliding and arbitrary ids, parallel and '
+      'multi-operator edges with cancelling coefficients) are validated by TLC, which recomputes the model post-state, '
+      'the polynomial, the consistency predicate (cross-checking is_consistent()) and that the other graph of add is '
+      'untouched.',
+      'Integer coefficients only (exact in TLC); graphs up to length 4 and ~25 nodes in traces; model universe bounded '
+      'as listed in the evidence; wrappers on merge_edges / simplify / rename_*_id observe only.')
 
 def main():
     props = [json.loads(l) for l in open(os.path.join(VERIF, 'properties.jsonl'))]
